@@ -12,7 +12,7 @@ PRIM_INDEX = {'bool': 0, 'char': 1, 'str': 2, 'u8': 3, 'u16': 4, 'u32': 5, 'u64'
 def args_for(unit, failure, tier='quick'):
     item = ((failure.get('where') or {}).get('origin') or {}).get('item', '')
     if unit == 'U-DERIVES':
-        return ['c08-resolve'] if item in ('resolve', 'extend_from', 'insert_derive', 'insert_attribute', 'default_derives') else ['c18-upcast']
+        return [['c08-resolve'], ['c18-upcast']] if item in ('resolve', 'extend_from') else [['c18-upcast'], ['c08-resolve']]
     if unit == 'U-REACH':
         return ['c08-reach']
     if unit == 'U-COMPACTAS' or unit in ('kani:uint_predicate_table', 'kani:compact_as_unnamed_upto3'):
@@ -35,12 +35,17 @@ def search(tool, pid, unit, failure, tier, seed):
     a = args_for(unit, failure, tier)
     if a is None:
         return {'found': False, 'tried': ['no concrete search implemented for unit %s' % unit]}
-    try:
-        rc, js = _run(tool, a, 1500)
-    except subprocess.TimeoutExpired:
-        return {'found': False, 'tried': ['%s timed out' % ' '.join(a)]}
-    if js.get('found'):
-        return {'found': True, 'input_id': '%s:%s' % (a[0], js.get('input')), 'replay_args': a,
-                'describe': '%s: %s' % (js.get('input'), js.get('violations')), 'violations': js.get('violations'),
-                'tried': ['%s -> tried %s' % (' '.join(a), js.get('tried'))]}
-    return {'found': False, 'tried': ['%s -> tried %s inputs on the real code, none fails' % (' '.join(a), js.get('tried'))]}
+    alts = a if (a and isinstance(a[0], list)) else [a]
+    tried = []
+    for a in alts:
+        try:
+            rc, js = _run(tool, a, 1500)
+        except subprocess.TimeoutExpired:
+            tried.append('%s timed out' % ' '.join(a))
+            continue
+        if js.get('found'):
+            return {'found': True, 'input_id': '%s:%s' % (a[0], js.get('input')), 'replay_args': a,
+                    'describe': '%s: %s' % (js.get('input'), js.get('violations')), 'violations': js.get('violations'),
+                    'tried': tried + ['%s -> tried %s' % (' '.join(a), js.get('tried'))]}
+        tried.append('%s -> tried %s inputs on the real code, none fails' % (' '.join(a), js.get('tried')))
+    return {'found': False, 'tried': tried}
